@@ -8,7 +8,7 @@ from .lib import decision, guards, paths
 from .lib.mir import AnchorLost
 from .lib.reachrule import ReachRule
 
-CONFIGS_QUICK = ["A"]
+CONFIGS_QUICK = ["A", "R"]
 CONFIGS_THOROUGH = ["A", "R", "NOAPI"]
 TECHNIQUE = ('literal/field dispatch-table agreement across the sites that enumerate methods (built MIR), decision table of Node::search, must-pass-edge rule on '
              'Pattern::take_through (segment boundary), per-iteration guard of the compression loop, reachability of unsafe operations from the search with '
@@ -140,6 +140,7 @@ def head_guarded(h, prog, bb):
 def apply_fangs_trees(prog):
     """the per-method trees of base::Router that Router::apply_fangs hands the application's fangs to (also used by C04/C14)"""
     af = prog.method(r"^ohkami::router::base::Router$", "apply_fangs")
+    af = prog.inlined(af, 1, lambda caller, callee: callee.self_ty == caller.self_ty and callee.key != caller.key and len(callee.blocks) < 40)     # the list of trees may come from a helper of Router
     seen = set()
     for c in af.calls_to(r"base::Node::apply_fangs$"):
         d = decision.describe_deep(af, c.args[0], 8)
@@ -245,6 +246,23 @@ def c01a(ck, prog):
     sites += 1
     seen = set()
     for c in ma.calls_to(r"base::Node::merge_node$"):
+        tb = decision.table_column(decision.describe_deep(ma, c.args[0], 10))
+        if tb is not None:
+            # `for (.., root, another_root, allow) in [(.., &mut self.GET, another.GET, false), ..] { root.merge_node(.., another_root, allow) }`
+            tb2, tb3 = decision.table_column(decision.describe_deep(ma, c.args[2], 10)), decision.table_column(decision.describe_deep(ma, c.args[3], 10))
+            for ri, row in enumerate(tb[0]):
+                m = re.search(r"^arg1\.(\w+)$", row[tb[1]])
+                tree = m.group(1) if m else "?%d" % ri
+                other = ov = "?"
+                if tb2 is not None and tb2[0] == tb[0]:
+                    m2 = re.search(r"\.(\w+)$", row[tb2[1]])
+                    other = m2.group(1) if m2 else "?"
+                if tb3 is not None and tb3[0] == tb[0]:
+                    ov = row[tb3[1]]
+                ok = tree == other and ((ov == "const 1") == (tree == "OPTIONS")) and ov in ("const 0", "const 1")
+                ck.ob(R, "merge:%s" % tree, ok, ma.loc(c.sp), "" if ok else "merge_another merges the mounted application's %s tree into %s (override %s)" % (other, tree, ov), how="self.%s <- another.%s%s (table row)" % (tree, tree, ", override" if tree == "OPTIONS" else ""))
+                seen.add(tree)
+            continue
         recv = decision.describe_deep(ma, c.args[0], 3)
         m = re.search(r"arg1\.(\w+)$", recv)
         tree = m.group(1) if m else "?"
@@ -685,8 +703,13 @@ def c01j(ck, prog):
                 from .lib.mir import Call
                 cc = Call(f, dbb, payload, False)
                 kinds.append("whole" if cc.name == "len" and cc.args and re.match(r"^(deref\()*arg2\)*$", decision.describe_deep(f, cc.args[0], 4)) else "other:call %s" % cc.name)
-            elif dk == "assign" and payload["r"][0] == "use":
-                dd = decision.describe_deep(f, payload["r"][1], 6)
+            elif dk == "assign" and payload["r"][0] in ("use", "bin"):
+                if payload["r"][0] == "bin":
+                    # overflow checks off: `len = Sub(len, const 1)` without the checked pair
+                    rb = payload["r"]
+                    dd = "%s(%s,%s)" % (rb[1], decision.describe_deep(f, rb[2], 5), decision.describe_deep(f, rb[3], 2))
+                else:
+                    dd = decision.describe_deep(f, payload["r"][1], 6)
                 m = re.match(r"^Sub(?:WithOverflow)?\((?:var:\w+|len\((?:deref\()*arg2\)*),const 1\)(\.0)?$", dd)
                 in_loop = any(dbb in body for body in loops.values())
                 last_is_slash = False
@@ -702,6 +725,43 @@ def c01j(ck, prog):
                 kinds.append("minus-one" if (m and last_is_slash and not in_loop) else "other:%s%s%s" % (dd[:40], "" if last_is_slash else " (not under `last byte is /`)", " (in a loop)" if in_loop else ""))
             else:
                 kinds.append("other:%s" % dk)
+        if c.name == "from_bytes":
+            # the operand is the slice itself: `match bytes { [rest @ .., b'/'] => rest, _ => bytes }`
+            kinds = []
+            for (dbb, si, dk, payload) in defs:
+                if dk != "assign":
+                    kinds.append("other:%s" % dk)
+                    continue
+                r = payload["r"]
+                src = None
+                if r[0] == "use" and r[1][0] in ("c", "m"):
+                    src = r[1][1]
+                elif r[0] == "ref":
+                    src = r[2]
+                    # `&*tmp` where `tmp = &(*bytes)[0..len-1]`
+                    if [pr[0] for pr in src[1]] == ["d"]:
+                        sd = f.single_def(src[0])
+                        if sd and sd[2] == "assign" and sd[3]["r"][0] == "ref":
+                            src = sd[3]["r"][2]
+                if src is None:
+                    kinds.append("other:%s" % r[0])
+                    continue
+                subs = [pr for pr in src[1] if pr[0] == "sub"]
+                base_d = decision.describe_deep(f, ["c", [src[0], []]], 4)
+                if not re.match(r"^(deref\()*arg2\)*$", base_d):
+                    kinds.append("other:slice of %s" % base_d[:30])
+                elif not subs:
+                    kinds.append("whole")
+                elif len(subs) == 1 and subs[0][1:] == [0, 1, True]:
+                    guarded = False
+                    for fa in guards.facts_at(f, prog, dbb):
+                        if fa.kind == "int" and fa.values == {47}:
+                            dsc = f.blocks[fa.sw_bb]["t"]["discr"]
+                            if dsc[0] in ("c", "m") and dsc[1][0] == src[0] and any(pr[0] == "ci" and pr[1] == 1 and pr[3] is True for pr in dsc[1][1]):
+                                guarded = True
+                    kinds.append("minus-one" if guarded else "other:[..len-1] not under `last byte is /`")
+                else:
+                    kinds.append("other:subslice %s" % subs)
         ok = set(kinds) == {"minus-one", "whole"} and kinds.count("minus-one") == 1
         how = "len = target length; len -= 1 iff the last byte is `/`" if ok else "definitions of the length: %s" % kinds
     ck.ob(R, "normalised-length", ok, f.loc(c.sp), "" if ok else "the normalised request path has length `%s`: not `the target with exactly one trailing slash removed` -- paths with an extra empty trailing segment (`/users//`) "
